@@ -31,7 +31,7 @@ class C11(Property):
                              "with the model, cores/memory checked on the real state")
     assumptions = ["engine protocol (HistoryOk)", "levels of the selected locations are distinct locations; locations of a multi-location "
                    "target resolve the requirement identically", "amounts are exact rationals (binary floats leave residues: known finding)"]
-    quick_budget_s = 300
+    quick_budget_s = 600
 
     def explore(self, ctx: Ctx) -> None:
         schedprop.explore(ctx, self.pid)
